@@ -63,6 +63,12 @@ func planSubQueries(opts *Opts, query *sql.Query) (func(ctx context.Context) ([]
 				sqPlan := subQueryPlans[i]
 				onRow := func(row *core.FlatRow) (bool, error) {
 					dim := row.Key.Get(sq.Dim)
+					if dim == nil {
+						// A row that lacks the dimension contributes no value. nil in
+						// the list would make IN match every row that lacks the
+						// dimension (and "" and 0), which no literal list can express.
+						return true, nil
+					}
 					mx.Lock()
 					uniques[dim] = true
 					mx.Unlock()
